@@ -183,6 +183,15 @@ class RepoCollectionMetadata(CollectionMetadata):
         self._write_config(config)
 
 
+def _do_commit(repo, **kwargs):
+    """Create a commit, also with dulwich versions without Repo.do_commit."""
+    try:
+        do_commit = repo.do_commit
+    except AttributeError:
+        do_commit = repo.get_worktree().commit
+    return do_commit(**kwargs)
+
+
 class locked_index:
     def __init__(self, path) -> None:
         self._path = path
@@ -603,8 +612,8 @@ class BareGitStore(GitStore):
         return cls(dulwich.repo.MemoryRepo())
 
     def _commit_tree(self, tree_id, message, author=None):
-        return self.repo.do_commit(
-            message=message, tree=tree_id, ref=self.ref, author=author
+        return _do_commit(
+            self.repo, message=message, tree=tree_id, ref=self.ref, author=author
         )
 
     def _import_one(
@@ -703,7 +712,7 @@ class TreeGitStore(GitStore):
 
     def _commit_tree(self, index, message, author=None):
         tree = index.commit(self.repo.object_store)
-        return self.repo.do_commit(message=message, author=author, tree=tree)
+        return _do_commit(self.repo, message=message, author=author, tree=tree)
 
     def _import_one(
         self,
